@@ -150,6 +150,13 @@ class SetupActor:
                     )
                     self.chan_names.append(did if ndm == 0 or did not in self.chan_names else did)
                     ndm += 1
+                    if reusable and profile.get("dmm_twice_p") and rng.random() < profile["dmm_twice_p"]:
+                        # a device with reusable channels lets the same DMM be configured
+                        # again (with another map): the second channel is "<dmm_id>_1"
+                        ws2 = {q: 0.0 for q in qids}
+                        ws2[G.pick(rng, qids)] = 1.0
+                        self.queue.insert(rng.randint(0, len(self.queue)), {"op": "config_detuning_map", "weights": ws2, "dmm_id": did})
+                        self.chan_names.append(f"{did}_1")
         slm_p = profile.get("slm_p_xy", profile["slm_p"]) if use_xy else profile["slm_p"]
         if getattr(device, "supports_slm_mask", False) and dmm_ids and rng.random() < slm_p:
             tg = rng.sample(qids, rng.randint(1, max(1, len(qids) - 1)))
